@@ -140,7 +140,7 @@ class Triggs(nn.Module):
         g1 = grad(y, x, create_graph=True)[0]
         # an affine kernel has a constant first derivative, detached from the graph
         g2 = grad(g1.sum(), x)[0] if g1.requires_grad else torch.zeros_like(g1)
-        return x.detach_(), g1.detach_(), g2.detach_()
+        return x.detach(), g1.detach(), g2.detach()
 
     def forward(self, R: Tensor, J: Tensor):
         r'''
